@@ -984,4 +984,10 @@ theorem lex_single {body : Src} {k : Kind} (h : lexToken body = some (⟨k, body
   rw [hn]
   simp [repeatF, h, h0, skipWs, mkToken, utf8Len]
 
+
+theorem cancel1 {body r : Src} {c : Char} (h : body ++ r = c :: r) : body = [c] :=
+  List.append_cancel_right (as := body) (bs := r) (cs := [c]) (by simpa using h)
+theorem cancel2 {body r : Src} {c d : Char} (h : body ++ r = c :: d :: r) : body = [c, d] :=
+  List.append_cancel_right (as := body) (bs := r) (cs := [c, d]) (by simpa using h)
+
 end Lemmas.Lex
